@@ -380,6 +380,7 @@ class FeedChecker(ProgMixin):
                     if (len(piece) == self.piece_length) or (i + 1 == len(
                             self.paths)):
                         yield piece
+                        partial = bytearray()
                     else:
                         partial = piece
 
@@ -388,6 +389,7 @@ class FeedChecker(ProgMixin):
                 for pad in self._gen_padding(partial, length):
                     if len(pad) == self.piece_length:
                         yield pad
+                        partial = bytearray()
                     else:
                         partial = pad
             self.progbar.close_out()
